@@ -154,12 +154,12 @@ def run(res, tier, seed, shard, nshards):
     m = len(ops)
     for x in range(shard, m, nshards):
         a = ops[x]
-        if contains_map(a) or any(t[0] == "noop" for t in qast.atoms(a)):
+        if contains_map(a):
             continue
         qa = qast.to_real(a)
         for y in range(m):
             b = ops[y]
-            if contains_map(b) or any(t[0] == "noop" for t in qast.atoms(b)):
+            if contains_map(b):
                 continue
             qb = qast.to_real(b)
             res.evaluations += 1
@@ -181,7 +181,7 @@ def run(res, tier, seed, shard, nshards):
         res.require("map_expressions")
     res.assumptions += [
         "test()/map() callables come from a fixed registry of deterministic functions",
-        "noop() queries are excluded from the commutativity clause (their hash key is the empty tuple, so they equal nothing)",
+        "a bare noop() query equals nothing, itself included (its hash key is the empty tuple); compounds containing one are ordinary hashable queries and take part in the commutativity clause",
     ]
 
 
